@@ -715,6 +715,9 @@ def variant():
     d2 = DSL({"+": W.tt_repo(arrow("int", "int", "int")), "1": W.tt_repo("int")})
     tr2 = W.tt_repo(arrow("bool", "int", "int"))
     _VARIANT["mul_tr"] = (TTCFG.size_constraint(d2, tr2, 3) * TTCFG.size_constraint(d2, tr2, 2)).type_request == tr2
+    # proposed repair of the count half of C13-F5: a non-terminal removed by clean() counts 0 in programs()
+    un = DSL({"f": W.tt_repo(arrow("a", "b", "c")), "x": W.tt_repo("a"), "k": W.tt_repo("c")})
+    _VARIANT["count_zero"] = TTCFG.size_constraint(un, W.tt_repo("c"), 4).programs() == 1
     return _VARIANT
 
 
@@ -891,16 +894,23 @@ def check_single(case, M, rng):
             [dw, W.ty_wire(tr), spec["max_size"], ng, var["actual"]] if kind == "size" else [dw, W.ty_wire(tr), spec["name"], spec["k"], ng]) + [
             [Sym("tt"), gw[1] if kind == "size" else [gw[1][0], gw[1][1], max(0, spec["k"])], []], [term_wire(t) for t in cand], FUEL])
     sub_ok, closed_ok, ndead, bits = cans[0] == "1", cans[1] == "1", int(cans[2]), cans[5]
-    mprog_impl = cans[4] if var["empty_zero"] else cans[3]
+    mprog_impl = cans[6] if var["count_zero"] else cans[4] if var["empty_zero"] else cans[3]
     # hypotheses on the MODEL's own table for this input
     hyp = {"sub": None, "closed": None, "start": None}
     model_tbl = None
     if mans[0][0] == "ok":
         model_tbl = mans[0][1][0]
         if kind == "size":
-            hans = M.ask([Sym("c13.checksize"), dw, W.ty_wire(tr), spec["max_size"], ng, var["actual"], rewire(model_tbl), [], FUEL])
+            hans = M.ask([Sym("c13.checksize"), dw, W.ty_wire(tr), spec["max_size"], ng, var["actual"], rewire(model_tbl), [term_wire(t) for t in cand], FUEL])
         else:
-            hans = M.ask([Sym("c13.checkatmost"), dw, W.ty_wire(tr), spec["name"], spec["k"], ng, rewire(model_tbl), [], FUEL])
+            hans = M.ask([Sym("c13.checkatmost"), dw, W.ty_wire(tr), spec["name"], spec["k"], ng, rewire(model_tbl), [term_wire(t) for t in cand], FUEL])
+        # theorems about the construction itself, re-checked on the model's own grammar for this input
+        if var["stack_key"] and (first_order or var["actual"] or kind == "atmost"):
+            for t, hb in zip(cand, hans[5]):
+                if hb[1] != hb[4]:
+                    raise RuntimeError(f"the model's grammar differs from the specification on {term_str(t)} (contradicts C13_size_vis / C13_atmost_vis)")
+            if (ng >= 2 or ng < 0) and hans[6] != "none" and int(hans[6]) != len(members):
+                raise RuntimeError(f"programsR of the model's grammar is {hans[6]}, the language has {len(members)} programs (contradicts C13_count_size / C13_count_atmost)")
         hyp["sub"], hyp["closed"] = hans[0] == "1", hans[1] == "1"
         hyp["start"] = json.dumps(_plain(model_tbl[1])) in {json.dumps(e[0]) for e in _plain(model_tbl[2])}
     hyp_ngram = ng >= 2 or ng < 0 or not forb
@@ -914,8 +924,9 @@ def check_single(case, M, rng):
             return "C13-F2"
         if hyp["start"] is False and what == "programs() is not the size of the language" and not var["empty_zero"]:
             return "C13-F6"
-        if hyp["sub"] and hyp["closed"] is False and hyp["start"] and what in (
-                "programs() is not the size of the language", "a derivation that can be started cannot be completed"):
+        if hyp["sub"] and hyp["closed"] is False and hyp["start"] and (
+                what == "a derivation that can be started cannot be completed"
+                or (what == "programs() is not the size of the language" and not var["count_zero"])):
             return "C13-F5"
         if not first_order and not var["actual"] and kind == "size" and what in (
                 "a member of the language is not in the grammar", "programs() is not the size of the language"):
@@ -1118,7 +1129,7 @@ def check_mul(case, M, rng):
     ans = M.ask([Sym("c13.mul"), w1, w2, wi, [term_wire(t) for t in cand], FUEL])
     mres = ans[1] if var["empty_zero"] else ans[0]
     sub_ok, closed_ok, typed_ok, bits = ans[3] == "1", ans[4] == "1", ans[6] == "1", ans[7]
-    mprog_impl = ans[2] if var["empty_zero"] else ans[5]
+    mprog_impl = ans[8] if var["count_zero"] else ans[2] if var["empty_zero"] else ans[5]
     if not typed_ok:
         fail("corr", "a factor's rule table gives a symbol other argument types than its type has at the non-terminal (hypothesis typedOK of C13_product_typed)", "")
     # ---- the property: membership = in both
@@ -1154,7 +1165,8 @@ def check_mul(case, M, rng):
         fid = "C13-F6"
     nprog = limited(IMPL_LIMIT, g.programs)
     if nprog != len(common):
-        fail("oracle", "programs() of the product is not the number of common programs", f"{nprog} vs {len(common)}", fid)
+        fail("oracle", "programs() of the product is not the number of common programs", f"{nprog} vs {len(common)}",
+             None if var["count_zero"] and fid == "C13-F5" else fid)
     if str(mprog_impl) != str(nprog):
         fail("corr", "programs() differs from the model's programs on the same table", f"{nprog} vs {mprog_impl}")
     if not var["mul_tr"] and ans[0][0] == "ok" and ans[0][1][2] != _plain(W.ty_wire(g.type_request)):
